@@ -218,6 +218,12 @@ pub const EXIT_CPU_WATCHDOG: i32 = 97;
 
 /// Called by the worker thread before a monitored case (cheap unless `with_bytes`).
 pub fn wd_begin(tag: &str, bytes: Option<&[u8]>) {
+    #[cfg(miri)]
+    {
+        // no files under isolation: the last VERIF-CASE line before a Miri report identifies the case
+        let hex: String = bytes.unwrap_or(&[]).iter().take(200).map(|b| format!("{:02x}", b)).collect();
+        eprintln!("VERIF-CASE {} {}", tag, hex);
+    }
     if let Some(path) = trace_file() {
         // crash localisation mode: persist the case before executing it
         let hex: String = bytes.unwrap_or(&[]).iter().map(|b| format!("{:02x}", b)).collect();
